@@ -218,10 +218,16 @@ class TaskQueueDouble:
 
 
 class EventQueueDouble:
-    def __init__(self):
-        self.items = []
+    """Stands for queue.Queue in lemoncheesecake.events.  A bounded queue (maxsize > 0) makes put a blocking operation: a yield
+    point that is enabled only while there is room (so a producer that can never be served shows up as a deadlock of the run)."""
 
-    def put(self, ev):
+    def __init__(self, maxsize=0):
+        self.items = []
+        self.maxsize = int(maxsize or 0)
+
+    def put(self, ev, block=True, timeout=None):
+        if self.maxsize > 0:
+            CTL.yield_(("qput",), lambda: len(self.items) < self.maxsize)
         self.items.append(ev)
 
     def get(self):
